@@ -229,5 +229,7 @@ NoViolation ==
    never be worked off, is a counterexample.  Checked by TLC under FairSpec (the pair_live configurations). *)
 Terminates == <>[]Quiet(c, s, gc, gs, c2s, s2c, duties, pend, phase)
 
-PrintEdge == PrintT(<< "E", ToJson([hist |-> hist']) >>)
+\* "to": the target state as a string - lets the driver rebuild the state GRAPH from the printed edges (the source of an
+\* edge is the target of the edge that printed its history) and draw random walks through it
+PrintEdge == PrintT(<< "E", ToJson([hist |-> hist', to |-> ToString(view')]) >>)
 =============================================================================
